@@ -20,7 +20,7 @@ from vlib import *
 from pegrun import *
 
 SL_QUICK = [("core", 3, 3, 8), ("stack", 3, 3, 6), ("until", 2, 4, 4)]
-SL_THOROUGH = [("core", 4, 3, 16), ("stack", 4, 3, 16), ("until", 3, 4, 8)]
+SL_THOROUGH = [("core", 4, 3, 16), ("stack", 4, 3, 16), ("until", 2, 5, 8)]
 
 
 def run(ctx):
